@@ -181,6 +181,119 @@ def val_tok(v) -> str:
     return "s" + tok_str(v)
 
 
+def attribute(lines: List[str], services) -> List[str]:
+    """J4/J5 on HTTP-level observations: find, for every service, an attribution of the NOTIFYs after the initial
+    ones to variables (one `h trig x t` line right before the first NOTIFY it pays for) that the Lean monitor
+    accepts: x is evented, one of its changes is still unanswered, the previous event attributed to x is at least
+    x's interval old, the attribution is made at the NOTIFY's own instant and pays for one NOTIFY per subscriber.
+    The search is exhaustive (memoised backtracking); when no attribution exists none is emitted and the judge
+    rejects the NOTIFY that cannot be explained."""
+    import sys
+    nsvc = len(services)
+    out_hints: Dict[int, List[str]] = {}
+    for k in range(nsvc):
+        vs = services[k]
+        nv = len(vs)
+        evented = [bool(v[0]) for v in vs]
+        rate = [int(v[1]) for v in vs]
+        # items of this service: (line index, kind, payload)
+        items = []
+        for li, ln in enumerate(lines):
+            t = ln.split()
+            if not t:
+                continue
+            if t[0] == "adv":
+                items.append((li, "adv", int(t[1])))
+                continue
+            if not t[0].startswith("@") or int(t[0][1:]) != k:
+                continue
+            r = t[1:]
+            if r[0] == "set":
+                items.append((li, "assign", [(int(r[1]), r[2])]))
+            elif r[0] == "burst":
+                items.append((li, "assign", [(int(a.split("=")[0]), a.split("=")[1]) for a in r[1].split(",")]))
+            elif r[0] in ("sub", "renew", "unsub", "done", "fail", "setkey"):
+                items.append((li, "op", r[0]))
+            elif r[0] == "o" and r[1] == "resp":
+                items.append((li, "resp", (r[2], r[3])))
+            elif r[0] == "o" and r[1] == "notify":
+                try:
+                    items.append((li, "notify", (int(r[2]), int(r[4]))))
+                except ValueError:
+                    items.append((li, "skip", None))
+        cur0 = tuple(val_tok(v[2]) for v in vs)
+        memo = set()
+        sys.setrecursionlimit(10000)
+
+        best = [-1, []]
+
+        def go(i, now, target, cur, pending, last, subs, last_op, acc=()):
+            # subs: tuple of (got, credit)
+            while i < len(items):
+                li, kind, pl = items[i]
+                if kind in ("adv", "assign", "op"):
+                    now = target
+                    subs = tuple((g, 0) for g, _ in subs)
+                    if kind == "adv":
+                        target = now + pl
+                    elif kind == "assign":
+                        cur = list(cur)
+                        pending = list(pending)
+                        for x, v in pl:
+                            if x < nv and cur[x] != v:
+                                cur[x] = v
+                                pending[x] += 1
+                        cur = tuple(cur)
+                        pending = tuple(pending)
+                    last_op = pl if kind == "op" else kind
+                elif kind == "resp":
+                    status, sid = pl
+                    if last_op == "sub" and status == "200" and sid != "~" and int(sid) == len(subs):
+                        subs = subs + ((False, 0),)
+                    last_op = None
+                elif kind == "notify":
+                    sid, t = pl
+                    if now < t:
+                        subs = tuple((g, 0) for g, _ in subs)
+                    now = max(now, t)
+                    if sid < len(subs):
+                        got, credit = subs[sid]
+                        if not got:
+                            subs = subs[:sid] + ((True, credit),) + subs[sid + 1:]
+                        elif credit > 0:
+                            subs = subs[:sid] + ((True, credit - 1),) + subs[sid + 1:]
+                        else:
+                            key = (i, now, target, cur, pending, last, subs)
+                            if i > best[0]:
+                                best[0], best[1] = i, list(acc)  # the longest explained prefix (for the judge's message)
+                            if key in memo:
+                                return None
+                            for x in range(nv):
+                                if evented[x] and pending[x] > 0 and (last[x] is None or last[x] + rate[x] <= t):
+                                    p2 = pending[:x] + (pending[x] - 1,) + pending[x + 1:]
+                                    l2 = last[:x] + (t,) + last[x + 1:]
+                                    s2 = tuple((g, c + 1) for g, c in subs)
+                                    s2 = s2[:sid] + ((True, s2[sid][1] - 1),) + s2[sid + 1:]
+                                    rest = go(i + 1, now, target, cur, p2, l2, s2, last_op, acc + ((li, x, t),))
+                                    if rest is not None:
+                                        return [(li, x, t)] + rest
+                            memo.add(key)
+                            return None
+                i += 1
+            return []
+
+        res = go(0, 0, 0, cur0, tuple(0 for _ in vs), tuple(None for _ in vs), tuple(), None)
+        for li, x, t in (res if res is not None else best[1]):
+            out_hints.setdefault(li, []).append(f"@{k} h trig {x} {t}")
+    if not out_hints:
+        return lines
+    out = []
+    for li, ln in enumerate(lines):
+        out.extend(out_hints.get(li, []))
+        out.append(ln)
+    return out
+
+
 def norm_services(recipe: Dict[str, Any]) -> List[List[List[Any]]]:
     """recipe["services"] = [[ [evented, rate µs, default, type], ... ], ...]; legacy recipe["vars"] = one service of i4"""
     svcs = recipe.get("services")
@@ -524,6 +637,9 @@ def run_recipe(ctx: Ctx, recipe: Dict[str, Any], cid: str) -> Case:
         tags.add("deferred-trigger")
     if stats["post"]:
         tags.add("post-initial-event")
+    lines = attribute(lines, services)
+    if stats["post"] and not any(" o trig " in ln for ln in lines):
+        tags.add("hook-saw-no-trigger")
     return Case(cid, lines, recipe, bool(stats["post"] or stats["deferred"]), sorted(tags))
 
 
